@@ -62,7 +62,7 @@ def events(ctx):
     for lo in range(65536):
         hi = rng.randrange(65536)
         yield record("reqid.unpack", {"octets": [hi >> 8, hi & 255, lo >> 8, lo & 255]})
-    for _ in range(ctx.q(4000, 300000)):
+    for _ in range(ctx.q(12000, 800000)):
         r = rnd_req(rng)
         yield record("reqid.rt", {"r": r, "sfx": [rng.randrange(256)] * rng.randrange(3), "via": rng.choice(["ctor", "sph", "mutate"])})
         r2 = dict(r)
@@ -72,11 +72,11 @@ def events(ctx):
         else:
             r2 = rnd_req(rng)
         yield record("reqid.eq", {"r1": r, "r2": r2})
-    for _ in range(ctx.q(5000, 300000)):
+    for _ in range(ctx.q(15000, 800000)):
         p = rnd_report(rng, valid=rng.random() < 0.9)
         via = rng.choice(["ctor", "ctor", "from_tm"])
         yield record("srv1.rt", {"p": p, "tc": [], "via": via, "sfx": [rng.randrange(256)] * rng.choice([0, 0, 2])})
-    for _ in range(ctx.q(1500, 60000)):
+    for _ in range(ctx.q(5000, 200000)):
         p = rnd_report(rng)
         p.update({"seq": 0, "ver": 0, "timeref": 0, "dest": 0})
         tc = {"apid": rng.randrange(2048), "seq": rng.randrange(16384), "ack": rng.randrange(16), "service": rng.randrange(256),
@@ -84,7 +84,7 @@ def events(ctx):
         yield record("srv1.rt", {"p": p, "tc": [tc], "via": "create", "sfx": []})
     # raw reports: packed by the library, then cut / mutated / decoded with other widths
     from ..ops_srv1 import mk_srv1
-    for _ in range(ctx.q(4000, 200000)):
+    for _ in range(ctx.q(12000, 600000)):
         p = rnd_report(rng)
         raw = list(mk_srv1({"p": p, "via": "ctor"}).pack())
         sw = p["step"][0]["w"] if p["step"] else rng.choice([1, 2, 4, 8])
